@@ -10,6 +10,7 @@ driver for the clone model (engine `clones`, C12)
              | `a <ctx> act`       act := `rec <tag>` | `io <ref>` | `put <int> <ref>` | `inc <ref> <int>` | `done`
                                          | `rear <moot> <frame>` | `raze <all|first|last> <frame|me>`
              | `u <frame>`                                              under frame
+             | `l <n> need^n`                                           let [me] if need [and need …]
              | `g <far> <n> need^n` need := `<0|1> st <ref> <op> <int>` | `<0|1> all` | `<0|1> any` | `<0|1> aux <tag>`
      → the output lines of the run joined by `|` (format: harness/props/c12.py, `run_real`)
 -/
@@ -124,6 +125,9 @@ def itemP : P Item := fun ts => do
   | "u" => do
     let (n, r) ← tok r
     return (.under n, r)
+  | "l" => do
+    let (ns, r) ← many needP r
+    return (.cond ns, r)
   | _ => none
 
 def frameP : P FrameSrc := fun ts => do
@@ -171,6 +175,8 @@ def itemPaths : List Item → Nat → List (Nat × Nat × String)
      | .act _ (.inc p _) => [(i, 0, p)]
      | .act _ (.io p) => [(i, 0, p)]
      | .go _ needs =>
+       (needs.zipIdx).filterMap (fun (n, j) => match n.k with | .state p _ _ => some (i, j, p) | _ => none)
+     | .cond needs =>
        (needs.zipIdx).filterMap (fun (n, j) => match n.k with | .state p _ _ => some (i, j, p) | _ => none)
      | _ => []) ++ itemPaths rest (i + 1)
 
